@@ -24,9 +24,9 @@ def run(ctx, R):
     R.explanation = 'Purity of all fold operators, and plumbing of start/with_state from the public API to Stream.accumulate.'
     R.not_decided = ['numeric results; only that resumed and uninterrupted runs perform the same calls']
     declare(R, folds.RULES, RULES, FLOORS)
-    folds.check_fold_pure(ctx, R)
-    folds.check_batch_pure(ctx, R)
-    folds.check_state_plumb(ctx, R)
-    folds.check_ctor_copy(ctx, R)
-    folds.check_acc_contract(ctx, R)
-    folds.check_fold_derive(ctx, R, steps=('on_new', 'on_old'))
+    R.run(folds.check_fold_pure, ctx, R)
+    R.run(folds.check_batch_pure, ctx, R)
+    R.run(folds.check_state_plumb, ctx, R)
+    R.run(folds.check_ctor_copy, ctx, R)
+    R.run(folds.check_acc_contract, ctx, R)
+    R.run(folds.check_fold_derive, ctx, R, steps=('on_new', 'on_old'))
